@@ -113,6 +113,19 @@ def layer_sorter(repo):
     )
 
 
+def _mentions_hook(f, attrname):
+    """A two-parameter top-level function that asks its operands for the hook: hasattr(x, '<hook>'), x.<hook>, or the
+    hook's name handed to a helper."""
+    if len(f.params) != 2:
+        return False
+    for n in ast.walk(f.node):
+        if isinstance(n, ast.Constant) and n.value == attrname:
+            return True
+        if isinstance(n, ast.Attribute) and n.attr == attrname:
+            return True
+    return False
+
+
 def _hasattr_tests(fnode, attrname):
     return [
         c
@@ -128,7 +141,7 @@ def _hasattr_tests(fnode, attrname):
 @_memo
 def typeorder_fn(repo):
     return _one(
-        _lift(repo, [f for f in repo.all_funcs() if f.cls is None and f.parent is None and _hasattr_tests(f.node, "__type_order__")]),
+        _lift(repo, [f for f in repo.all_funcs() if f.cls is None and f.parent is None and (_hasattr_tests(f.node, "__type_order__") or _mentions_hook(f, "__type_order__"))]),
         "type order function (tests hasattr(., '__type_order__'))",
     )
 
@@ -136,7 +149,7 @@ def typeorder_fn(repo):
 @_memo
 def subclasscheck_fn(repo):
     return _one(
-        _lift(repo, [f for f in repo.all_funcs() if f.cls is None and f.parent is None and _hasattr_tests(f.node, "__is_supertype__")]),
+        _lift(repo, [f for f in repo.all_funcs() if f.cls is None and f.parent is None and (_hasattr_tests(f.node, "__is_supertype__") or _mentions_hook(f, "__is_supertype__"))]),
         "subtype function (tests hasattr(., '__is_supertype__'))",
     )
 
